@@ -257,6 +257,21 @@ where
     }
 }
 
+impl<T> FastFixedIn<T> {
+    fn calc_needed_len(&self) -> usize {
+        // Frames are produced until the position reaches the end index, and no step
+        // is shorter than the shortest of the steps at the start and end of the chunk.
+        let t_ratio = 1.0 / self.resample_ratio;
+        let t_ratio_end = 1.0 / self.target_ratio;
+        let end_idx = self.chunk_size as f64
+            - (POLYNOMIAL_LEN_I as f64 + 1.0)
+            - t_ratio.max(t_ratio_end).ceil();
+        let frames = (end_idx - self.last_index) / t_ratio.min(t_ratio_end);
+        // Add a safety margin of 10 elements.
+        (frames.max(0.0) + 10.0) as usize
+    }
+}
+
 impl<T> Resampler<T> for FastFixedIn<T>
 where
     T: Sample,
@@ -280,9 +295,7 @@ where
         };
 
         // Set length to chunksize*ratio plus a safety margin of 10 elements.
-        let needed_len = (self.chunk_size as f64
-            * (0.5 * self.resample_ratio + 0.5 * self.target_ratio)
-            + 10.0) as usize;
+        let needed_len = self.calc_needed_len();
 
         validate_buffers(
             wave_in,
@@ -465,14 +478,17 @@ where
     }
 
     fn output_frames_max(&self) -> usize {
-        // Set length to chunksize*ratio plus a safety margin of 10 elements.
-        (self.chunk_size as f64 * self.resample_ratio_original * self.max_relative_ratio + 10.0)
-            as usize
+        // The position can lag the end of the previous chunk by up to the longest step.
+        let longest_step = (self.max_relative_ratio / self.resample_ratio_original).ceil();
+        // Set length to this times the ratio plus a safety margin of 10 elements.
+        ((self.chunk_size as f64 + longest_step)
+            * self.resample_ratio_original
+            * self.max_relative_ratio
+            + 10.0) as usize
     }
 
     fn output_frames_next(&self) -> usize {
-        (self.chunk_size as f64 * (0.5 * self.resample_ratio + 0.5 * self.target_ratio) + 10.0)
-            as usize
+        self.calc_needed_len()
     }
 
     fn output_delay(&self) -> usize {
